@@ -82,6 +82,11 @@ func (e *executor[R]) OnFailure(exec policy.ExecutionInternal[R], result *common
 	e.BaseExecutor.OnFailure(exec, result)
 
 	e.mtx.Lock()
+	if e.retriesExceeded {
+		// Retries were already exceeded by a concurrent attempt, such as a hedge, which called the listeners
+		e.mtx.Unlock()
+		return result.WithDone(true, false)
+	}
 	e.failedAttempts++
 	maxRetriesExceeded := e.maxRetries != -1 && e.failedAttempts > e.maxRetries
 	maxDurationExceeded := e.maxDuration != 0 && exec.ElapsedTime() > e.maxDuration
